@@ -16,11 +16,15 @@ RULE = ("datagram sequences fed to the real Memoer (authic on and off) and servi
         "b64/b2, 1-4 grams, 3 signers) delivered intact, and every single-byte mutation class (code, neck, mid, vid, "
         "body, signature; to 0xff, '!', +1, other code letters incl. ack and unknown), truncation at every part "
         "boundary, gram numbers >= count, count 0, re-signed by another signer, undecodable bodies, random bytes with "
-        "plausible first sextets, empty datagrams; non-trivial = contains a mutated/truncated valid gram or random "
+        "plausible first sextets, empty datagrams; memos signed for a transferable ('D') vid with the key embedded in "
+        "the vid or with a rotated key, received with a keep that has the embedded key, the rotated key or no entry; "
+        "non-trivial = contains a mutated/truncated valid gram or random "
         "bytes starting with a b64/b2 'b' sextet")
-MODELLED = ["Memoer.verify (vid/signature decoding, keep lookup, libsodium crypto_sign_verify_detached): a parameter "
-            "of the model, instantiated per case with the outcomes of the real calls; contract used by the theorems: "
-            "returns True or raises MemoerError",
+MODELLED = ["the crypto proper inside Memoer.verify (_decodeQVK/_decodeSGN of key and signature text, libsodium "
+            "crypto_sign_verify_detached) as a parameter `sigverify key sig ser`, instantiated per case with the outcomes "
+            "of the real calls; the choice of the key (vid code B: the vid itself; D/E: keep lookup, missing -> rejected; "
+            "code/length/midpad checks of _decodeVID) is modelled (MemoGram.mverify); contract used by the theorems: "
+            "sigverify returns True or raises MemoerError",
             "bytes.decode() as a strict UTF-8 validity predicate; memo text compared as UTF-8 bytes",
             "the four rx dicts as one insertion-ordered entry list; sources as N",
             "Memoer.receive via the .echos queue (echoic)"]
@@ -39,14 +43,14 @@ def _cfgs():
     return out, vids
 
 
-def _grams(memo, code, curt, vid, n, extra):
+def _grams(memo, code, curt, vid, n, extra, keepmode="full"):
     """real rend() output with about n grams: size = zeroth overhead + extra body bytes."""
     zoz = 32 + (44 + 88 if code in mc.SIGNED else 0)
     noz = 32 + (88 if code in mc.SIGNED else 0)         # rend does not scale the non-zeroth overhead when curt
     if curt:
         zoz = 3 * zoz // 4
     size = max(zoz, noz) + extra                        # keeps both body sizes positive (see the C20 finding)
-    grams, _ = mc.rend(memo, code=code, curt=curt, size=size, vid=vid, mid=mc.mid_of(n))
+    grams, _ = mc.rend(memo, code=code, curt=curt, size=size, vid=vid, mid=mc.mid_of(n), keepmode=keepmode)
     return grams
 
 
@@ -95,7 +99,7 @@ def _code_swaps(g, curt):
     return [x for x in out if x[1] != g]
 
 
-def _case(authic, dgrams, svc="all", kind="valid"):
+def _case(authic, dgrams, svc="all", kind="valid", keep="full"):
     """dgrams: list of (bytes, src).  svc: 'all' after every datagram | 'end' | 'once' | 'split'."""
     ops = []
     for g, src in dgrams:
@@ -110,7 +114,10 @@ def _case(authic, dgrams, svc="all", kind="valid"):
         ops += [["all"]]
     elif svc == "once":
         ops += [["once"]] * 2
-    return {"authic": authic, "ops": ops, "kind": kind}
+    c = {"authic": authic, "ops": ops, "kind": kind}
+    if keep != "full":
+        c["keep"] = keep
+    return c
 
 
 # --------------------------------------------------------------------------- streams
@@ -154,6 +161,16 @@ def directed():
     out.append(_case(True, [(ga[0], 1), (gb[0], 2), (ga[1], 1), (ga[2], 1)], "end", "mut:second zeroth"))
     gd = _grams(MEMOS[0], "bAAC", False, vids[2], n + 1, 5)          # 'D' vid: verkey from keep
     out.append(_case(True, [(gd[0], 3)], "all"))
+    # transferable ('D') signer: the vid is only a label, the verkey must come from the receiver's keep.
+    # sender signs with the key embedded in the vid ("full") or with a rotated key ("rotated");
+    # receiver has the embedded key, the rotated key, or no entry at all for that vid
+    for curt in (False, True):
+        for snd in ("full", "rotated"):
+            n += 1
+            gk = _grams(MEMOS[2], "bAAC", curt, vids[2], n, 5, keepmode=snd)
+            for rcv in ("full", "rotated", "nokeep"):
+                out.append(_case(True, [(x, 3) for x in gk], "all", f"keep:{rcv}/{snd}", keep=rcv))
+                out.append(_case(False, [(x, 3) for x in gk], "end", f"keep:{rcv}/{snd}", keep=rcv))
     # unsigned gram to an authic receiver; signed gram to a non-authic receiver; empty datagram stops the loop
     gu = _grams(MEMOS[0], "bAAA", False, None, n + 2, 5)
     out.append(_case(True, [(gu[0], 1)], "all", "mut:unsigned to authic"))
@@ -180,7 +197,11 @@ def generate(rng, tier):
         extra = rng.choice([1, 2, 5, 9, 30, 200])
         if signed and len(memo.encode()) // extra > 3:
             extra = len(memo.encode()) // 3 + 1                      # keep signed cases small
-        g = _grams(memo, code, curt, vid, 1000 + i, extra)
+        snd = rcv = "full"
+        if signed and vid == vids[2]:
+            snd = rng.choice(["full", "rotated"])
+            rcv = rng.choice(["full", "rotated", "nokeep"])
+        g = _grams(memo, code, curt, vid, 1000 + i, extra, keepmode=snd)
         authic = signed if rng.random() < 0.8 else (not signed)
         r = rng.random()
         dg = [(x, 1) for x in g]
@@ -206,19 +227,21 @@ def generate(rng, tier):
                 dg.append((start + body, rng.choice([1, 2])))
             kind = "random"
         elif r < 0.85:                                 # reorder / duplicate valid grams, second memo interleaved
-            g2 = _grams(rng.choice(MEMOS[:2]), code, curt, vid, 5000 + i, extra)
+            g2 = _grams(rng.choice(MEMOS[:2]), code, curt, vid, 5000 + i, extra, keepmode=snd)
             dg = [(x, 1) for x in g] + [(x, 2) for x in g2] + [(rng.choice(g), 1)]
             rng.shuffle(dg)
             kind = "order"
         svc = rng.choice(["all", "all", "end", "once", "split"])
-        out.append(_case(authic, dg, svc, kind))
+        if (snd, rcv) != ("full", "full"):
+            kind = f"keep:{rcv}/{snd}," + kind
+        out.append(_case(authic, dg, svc, kind, keep=rcv))
     return out
 
 
 # --------------------------------------------------------------------------- implementation / oracle
 
 def run_impl(case):
-    m = mc.new_receiver(case["authic"])
+    m = mc.new_receiver(case["authic"], case.get("keep", "full"))
     excs = mc.run_rx_ops(m, case["ops"])
     obs = mc.observe_rx(m)
     obs["excs"] = excs
@@ -242,14 +265,14 @@ def oracle(case, obs):
     if any(e[3] not in ("ok", "MemoErr") for e in obs["verify"]):
         return f"Memoer.verify raised something other than MemoerError: {[e[3] for e in obs['verify'] if e[3] not in ('ok', 'MemoErr')]}"
     if case["authic"]:
-        keep, _ = mc.keep_and_vids()
+        keep, _ = mc.keep_and_vids(case.get("keep", "full"))      # the receiver's keep
         for memo in obs["rxms"] + obs["inbox"]:
             text, src, vid = bytes.fromhex(memo[0]), memo[1], memo[2]
             if vid is None:
                 return f"memo {text!r} delivered without a signer id although signed grams are required"
             vid = bytes.fromhex(vid).decode()
             bodies = []
-            for v, s, ser, r in obs["verify"]:
+            for kt, s, ser, r, v in obs["verify"]:
                 if r == "ok" and bytes.fromhex(v).decode() == vid:
                     serb, sig = bytes.fromhex(ser), bytes.fromhex(s).decode()
                     hl = mc.head_len(serb)
@@ -266,7 +289,7 @@ def to_coq(case, obs):
 
 
 def nontrivial(case, obs):
-    return case.get("kind", "").startswith(("mut", "random"))
+    return case.get("kind", "").startswith(("mut", "random", "keep"))
 
 
 def classify(case, obs, why):
